@@ -215,7 +215,11 @@ def list_fns(c, rel, header):
     return out
 
 def apply(c):
+    from overrides import OVERRIDES
     for tname, f, code, rfc, fields in TYPES:
         rel = 'dns/rdata/%s.rs' % f
         extra = ('write_common',) if tname == 'SOA' else ()
-        wrap_type(c, rel, tname, ghost_items(tname, fields), verified_inherent=extra)
+        # only the eight known compressing overrides are handed to contracts/overrides.py; an override that appears on any
+        # other type is verified as written against the trait contract (e.g. the no-compression rule of C07)
+        ext = ('write_compressed_to',) if tname in OVERRIDES else ()
+        wrap_type(c, rel, tname, ghost_items(tname, fields), verified_inherent=extra, external_trait_fns=ext)
